@@ -26,7 +26,7 @@ def errJ' : IniErr → Json
   | .duplicate => "duplicate" | .missing => "missing" | .exists => "exists" | .noHeader => "noHeader"
 
 def handleIni (op : String) (j : Json) : Except String Json := do
-  let cfg : IniCfg := ⟨(getBool j "normKeys").toOption.getD true, (getBool j "ownKeys").toOption.getD true⟩
+  let cfg : IniCfg := ⟨(getBool j "normKeys").toOption.getD true, (getBool j "ownKeys").toOption.getD true, (getBool j "listVars").toOption.getD true⟩
   let lines ← (← getArr j "lines").mapM parseLine
   match op with
   | "apply" =>
